@@ -41,6 +41,7 @@ type Conn struct {
 	ID       string
 	Broken   bool // protocol error from the proxy
 	Cmds     int
+	held     [][]byte // replies held back while the node is stalled
 }
 
 type Node struct {
@@ -52,6 +53,7 @@ type Node struct {
 	MasterOf int // -1: master
 	Up       bool
 	Silent   bool // accepts connections and requests, never answers
+	Stalled  bool // executes requests but holds the replies back until Unstall (a node that is slow for a while)
 	Conns    []*Conn
 	// View is this node's belief about slot owners used for CLUSTER NODES (nil: the truth)
 	View []int16
@@ -217,7 +219,22 @@ func (nc *Conn) execOne() {
 		}
 	}
 	if out != nil {
+		if n.Stalled {
+			nc.held = append(nc.held, out)
+			return
+		}
 		nc.End.Send(out)
+	}
+}
+
+// Unstall releases the replies held back while the node was stalled, in order.
+func (n *Node) Unstall() {
+	n.Stalled = false
+	for _, nc := range n.Conns {
+		for _, b := range nc.held {
+			nc.End.Send(b)
+		}
+		nc.held = nil
 	}
 }
 
